@@ -218,6 +218,31 @@ def Rx(c):
     return np.array([[1.0, 0, 0], [0, math.cos(c), -math.sin(c)], [0, math.sin(c), math.cos(c)]])
 
 
+# documented order of the rotation planes, written out (NOT computed from rotation_planes): xy, xz, yz, then every
+# further axis v appends (x,v), (y,v), (z,v), ... ; dim d uses the first d(d-1)/2 entries
+DOC_PLANES = [(0, 1),
+              (0, 2), (1, 2),
+              (0, 3), (1, 3), (2, 3),
+              (0, 4), (1, 4), (2, 4), (3, 4),
+              (0, 5), (1, 5), (2, 5), (3, 5), (4, 5),
+              (0, 6), (1, 6), (2, 6), (3, 6), (4, 6), (5, 6),
+              (0, 7), (1, 7), (2, 7), (3, 7), (4, 7), (5, 7), (6, 7)]
+
+
+def doc_rotation(dim, full_angles):
+    """rotation matrix built independently from the documented convention: Givens rotations in the documented plane
+    order, alternating signs, each multiplied from the left"""
+    R = np.eye(dim)
+    for i, (a, (p, q)) in enumerate(zip(full_angles, DOC_PLANES[: dim * (dim - 1) // 2])):
+        a = (-1) ** i * a
+        g = np.eye(dim)
+        g[p, p] = g[q, q] = math.cos(a)
+        g[p, q] = -math.sin(a)
+        g[q, p] = math.sin(a)
+        R = g @ R
+    return R
+
+
 def matrix_probes(ctx, rng):
     from gstools.tools import geometric as G
     dims = range(1, 9) if ctx.tier == "thorough" else range(1, 7)
@@ -284,7 +309,12 @@ def matrix_probes(ctx, rng):
                 if not agree(Mi @ x, want, np.abs(Mi) @ np.abs(x)):
                     viol("main_axis", "isometrize(t * main axis %d) != t / anis * e_%d" % (i, i), dict(case, t=C.fhex(t), axis=i))
                     break
-            # conventions
+            # conventions: documented plane order xy, xz, yz, xv, yv, zv, ... with alternating signs (every dimension)
+            if [tuple(int(v) for v in pl) for pl in G.rotation_planes(dim)] != DOC_PLANES[:noa]:
+                viol("plane-order", "rotation_planes(%d) is not the documented order xy, xz, yz, xv, yv, zv, ..." % dim, case)
+            if not agree(R, doc_rotation(dim, fa)):
+                viol("plane-order-matrix", "matrix_rotate is not the product of Givens rotations in the documented plane order "
+                     "(xy, xz, yz, xv, yv, zv, ...) with alternating signs", case)
             if dim == 2:
                 a = fa[0]
                 if not agree(R, np.array([[math.cos(a), -math.sin(a)], [math.sin(a), math.cos(a)]])):
@@ -391,6 +421,60 @@ def model_probes(ctx, rng):
                     if not agree(got, want, want, tol=1e-15):
                         viol("len-scale-list", "len_scale_vec does not reproduce the given list of length scales",
                              dict(model=name, dim=dim, len_scale=hexl(lsl)))
+
+
+def temporal_probes(ctx, rng):
+    """metric spatio-temporal models: yaw/pitch/roll act on space only, the time axis is never rotated"""
+    import gstools as gs
+    from gstools.tools import geometric as G
+
+    def viol(name, what, case):
+        if name not in SEEN:
+            SEEN.add(name)
+            ctx.violation("probe: " + name, what, case, key="probe:" + name)
+
+    reps = 30 if ctx.tier == "thorough" else 6
+    sdims = (1, 2, 3, 4, 5) if ctx.tier == "thorough" else (1, 2, 3, 4)
+    for sd in sdims:
+        dim = sd + 1
+        noa, noa_s = dim * (dim - 1) // 2, sd * (sd - 1) // 2
+        for rep in range(reps):
+            la = noa if rep % 2 == 0 else int(rng.integers(0, noa + 2))
+            angles = rng.uniform(0.2, 1.4, size=la) * rng.choice([-1.0, 1.0], size=la)   # all non-zero
+            anis = gen_anis(rng, dim - 1, wide=False)
+            case = dict(spatial_dim=sd, temporal=True, angles=hexl(angles), anis=hexl(anis))
+            ctx.count(("temporal", sd, la) if sd >= 2 else None, hist=dict(temporal_spatial_dim=sd))
+            try:
+                m = gs.Exponential(spatial_dim=sd, temporal=True, len_scale=1.5, anis=anis, angles=angles if la else 0.0)
+                ax = m.main_axes()
+                fa = np.zeros(noa_s)
+                fa[: min(la, noa_s)] = angles[:noa_s]
+                want = np.eye(dim)
+                want[:sd, :sd] = doc_rotation(sd, fa).T
+                if sd == 3:
+                    if not agree(want[:3, :3], (Rx(fa[2]) @ Ry(fa[1]) @ Rz(fa[0])).T):
+                        raise AssertionError("harness: doc_rotation(3) is not Rx Ry Rz")
+                if not (np.all(np.asarray(m.angles)[noa_s:] == 0.0) and agree(np.asarray(m.angles)[:noa_s], fa, tol=0.0)):
+                    viol("temporal-angles", "temporal model: angles beyond the spatial ones are not zeroed / spatial angles changed", case)
+                if not (agree(ax[:, -1], want[:, -1], tol=0.0) and agree(ax[-1, :], want[-1, :], tol=0.0)):
+                    viol("temporal-block", "temporal model: main_axes() is not block diagonal (time axis rotated into space)", case)
+                if not agree(ax, want):
+                    viol("temporal-spatial-block", "temporal model: spatial block of main_axes() is not the %d-D rotation by the "
+                         "given (yaw, pitch, roll) angles" % sd, case)
+                # positions: time is only scaled, space transforms like the purely spatial model
+                pos = rng.normal(size=(dim, 5)) * 3
+                ip = m.isometrize(pos)
+                if not agree(ip[-1], pos[-1] / m.anis[-1], np.abs(pos[-1] / m.anis[-1]), tol=1e-15):
+                    viol("temporal-time", "temporal model: isometrize mixes space into the time coordinate", dict(case, pos=hexl(pos)))
+                ms = gs.Exponential(dim=sd, len_scale=1.5, anis=anis[: sd - 1] if sd > 1 else 1.0, angles=fa if noa_s else 0.0)
+                sp = ms.isometrize(pos[:sd])
+                sc = np.abs(np.asarray(G.matrix_isometrize(sd, ms.angles, ms.anis))) @ np.abs(pos[:sd])
+                if not agree(ip[:sd], sp, sc):
+                    viol("temporal-space", "temporal model: spatial part of isometrize differs from the purely spatial model", dict(case, pos=hexl(pos)))
+            except AssertionError:
+                raise
+            except Exception as e:
+                viol("temporal-exception", "temporal model raised %r" % (e,), case)
 
 
 def pipeline_probes(ctx, rng):
@@ -543,6 +627,7 @@ def run(ctx):
             drv.close()
     matrix_probes(ctx, C.Rng(ctx.seed, "C12/matrix"))
     model_probes(ctx, C.Rng(ctx.seed, "C12/models"))
+    temporal_probes(ctx, C.Rng(ctx.seed, "C12/temporal"))
     pipeline_probes(ctx, C.Rng(ctx.seed, "C12/pipes"))
     if bad:
         names = sorted(set(b[0] for b in bad))
